@@ -334,7 +334,7 @@ pub fn run(ctx: &Ctx) {
          section, ranges are disjoint, each range decodes as exactly one directory with nothing left over, pointer id = first id of its leaf, leaves concatenate to the original \
          entries; util::read_directories on root+leaves returns the reference expansion. Non-trivial: spilled, or single-root size within 130 bytes of 16257/16384; distinct by digest.",
     );
-    run_proptest(ctx, "steered-lists", PtCfg::new(ctx.lanes, ctx.tier.pick(60, 1200)), strategy, check);
+    run_proptest(ctx, "steered-lists", PtCfg::new(ctx.lanes, ctx.tier.pick(60, 4000)), strategy, check);
     // by count, including very large lists
     let counts: Vec<Case> = (0..ctx.tier.pick(12, 48))
         .map(|i| {
